@@ -120,7 +120,63 @@ def make_font(rng, widths):
     return {"glyphs": glyphs, "glyphOrder": [g["name"] for g in glyphs]}
 
 
+def instructions_section(ctx):
+    """TrueType glyph programs from the glyphs' libs (public.truetype.instructions, accepted when the stored outline hash
+    matches), with and without font-level instruction data: maxp.maxSizeOfInstructions is the size of the largest glyph
+    program of the glyf table -- on the font as returned and after save / reload -- and the font re-saves to the same bytes"""
+    import ufo2ft
+    from functools import partial
+    from fontTools.ttLib import TTFont
+    from fontTools.pens.hashPointPen import HashPointPen
+    from fontTools.pens.roundingPen import RoundingPointPen
+    from fontTools.misc.fixedTools import floatToFixedToFloat
+    KEY = "public.truetype.instructions"
+    PROGS = ["PUSHB[ ] 0 1 2 3\nPOP[ ]\nPOP[ ]\nPOP[ ]\nSVTCA[0]\nMDAP[1]\nIUP[0]\nIUP[1]", "SVTCA[0]\nIUP[0]", "PUSHB[ ] 0\nMDAP[1]\nIUP[1]"]
+    sq = lambda x, d: [[(Fr(x), Fr(0), "line"), (Fr(x + d), Fr(0), "line"), (Fr(x + d), Fr(d), "line"), (Fr(x), Fr(d), "line")]]
+    for i in range(ctx.budget(6, 24)):
+        lib = ["ufoLib2", "defcon"][i % 2]
+        font_level = [None, {}, {"formatVersion": "1", "controlValue": {"0": 0, "1": 500}, "controlValueProgram": "PUSHB[ ] 0\nPOP[ ]",
+                                 "fontProgram": "PUSHB[ ] 0\nFDEF[ ]\nPOP[ ]\nENDF[ ]", "maxFunctionDefs": 1, "maxStorage": 0,
+                                 "maxStackElements": 8, "maxTwilightPoints": 0, "maxZones": 1, "maxInstructionDefs": 0}][(i // 2) % 3]
+        programmed = [["a"], ["a", "b"], ["b"]][i % 3]
+        glyphs = [{"name": n, "unicodes": [u], "width": 500 + 50 * k, "contours": sq(50, 300 + 40 * k), "components": [], "anchors": []}
+                  for k, (n, u) in enumerate((("a", 0x61), ("b", 0x62), ("c", 0x63)))]
+        desc = {"glyphs": glyphs, "glyphOrder": ["a", "b", "c"], "lib": {}}
+        case = {"font": jsonable(desc), "lib": lib, "glyph_programs": programmed, "font_level_instructions": font_level}
+        ctx.count(); ctx.klass("glyph programs / font-level data %s" % ("absent" if font_level is None else "empty" if not font_level else "present"))
+        ctx.nontriv(("instr", i, ctx.scale))
+        try:
+            plain = ufo2ft.compileTTF(build_font(desc, lib), useProductionNames=False)
+            for k, n in enumerate(programmed):
+                hp = HashPointPen(plain["hmtx"][n][0], plain.getGlyphSet())
+                plain["glyf"][n].drawPoints(RoundingPointPen(hp, transformRoundFunc=partial(floatToFixedToFloat, precisionBits=14)), plain["glyf"])
+                next(g for g in glyphs if g["name"] == n)["lib"] = {KEY: {"formatVersion": "1", "id": hp.hash, "assembly": PROGS[(i + k) % 3]}}
+            if font_level is not None:
+                desc["lib"][KEY] = font_level
+            tt = ufo2ft.compileTTF(build_font(desc, lib), useProductionNames=False)
+            returned = tt["maxp"].maxSizeOfInstructions
+            buf = io.BytesIO(); tt.save(buf); data1 = buf.getvalue()
+            tt2 = TTFont(io.BytesIO(data1))
+            buf2 = io.BytesIO(); tt2.save(buf2); data2 = buf2.getvalue()
+            tt3 = TTFont(io.BytesIO(data1))
+            sizes = {n: len(tt3["glyf"][n].program.getBytecode()) for n in tt3.getGlyphOrder()
+                     if getattr(tt3["glyf"][n], "program", None) is not None and tt3["glyf"][n].program.getBytecode()}
+        except Exception as e:
+            ctx.spec_failure(case, "raised %s: %s\n%s" % (type(e).__name__, e, traceback.format_exc()[-1000:]))
+            continue
+        if sorted(sizes) != sorted(programmed):
+            ctx.spec_failure(dict(case, programs_in_font=sizes), "glyph programs with a matching outline hash were not compiled: %r" % sizes)
+            continue
+        want = max(sizes.values())
+        if returned != want or tt3["maxp"].maxSizeOfInstructions != want:
+            ctx.spec_failure(dict(case, program_sizes=sizes), "maxp.maxSizeOfInstructions is %r as returned and %r after reload; the largest glyph "
+                             "program has %d bytes" % (returned, tt3["maxp"].maxSizeOfInstructions, want))
+        if data1 != data2:
+            ctx.spec_failure(case, "save -> reload -> save is not byte-identical with glyph programs")
+
+
 def explore(ctx):
+    instructions_section(ctx)
     import ufo2ft, itertools
     from fontTools.ttLib import TTFont
     rng = ctx.subrng("metrics")
